@@ -94,8 +94,47 @@ class Env:
 
 
 class PageEval:
-    def __init__(self):
+    def __init__(self, funcs=None):
         self.notes = []
+        self.funcs = funcs or {}      # module-level helper functions that may build parts of a page
+        self.depth = 0
+
+    def inline(self, fn, call, env):
+        """a call of a module-level helper that returns page text: evaluate its body with the parameters bound
+        to the fragments and taint classes of the arguments (fails closed: anything unusual raises Unsupported)"""
+        if self.depth >= 4:
+            raise Unsupported('helper nesting in ' + fn.name)
+        if fn.args.vararg or fn.args.kwarg or fn.args.kwonlyargs or fn.args.posonlyargs:
+            raise Unsupported('helper signature of ' + fn.name)
+        params = [a.arg for a in fn.args.args]
+        bound = dict(zip(params, call.args))
+        if len(call.args) > len(params):
+            raise Unsupported('helper arity of ' + fn.name)
+        for kw in call.keywords:
+            if kw.arg is None or kw.arg not in params or kw.arg in bound:
+                raise Unsupported('helper keywords of ' + fn.name)
+            bound[kw.arg] = kw.value
+        defaults = dict(zip(params[len(params) - len(fn.args.defaults):], fn.args.defaults))
+        e2 = Env()
+        for prm in params:
+            if prm in bound:
+                arg = bound[prm]
+                e2.cls[prm] = self.classify(arg, env)
+                if not (isinstance(arg, ast.Name) and arg.id in ('req', 'app') and prm == arg.id):
+                    e2.frag[prm] = self.frag(arg, env)
+            elif prm in defaults and isinstance(defaults[prm], ast.Constant):
+                e2.cls[prm] = 'trusted'
+                e2.frag[prm] = self.frag(defaults[prm], env)
+            else:
+                raise Unsupported('helper argument %s of %s' % (prm, fn.name))
+        self.depth += 1
+        try:
+            ret = self.run(fn.body, e2)
+        finally:
+            self.depth -= 1
+        if ret is None:
+            raise Unsupported('helper %s returns nothing' % fn.name)
+        return ret
 
     # ---- classification of a raw (unescaped) expression -------------------------------
     def classify(self, node, env):
@@ -184,7 +223,7 @@ class PageEval:
                 if isinstance(v, ast.Constant):
                     out.append(('lit', v.value))
                 else:
-                    if v.conversion != -1 or v.format_spec is not None:
+                    if v.conversion not in (-1, 115) or v.format_spec is not None:      # `!s` is str(): transparent
                         out.append(('hole', 'rawTainted', src(v)))
                     else:
                         out += self.frag(v.value, env)
@@ -199,6 +238,8 @@ class PageEval:
                 return [('lit', cleandoc(node.args[0].value))]
             if name == 'str' and len(node.args) == 1:
                 return self.frag(node.args[0], env)
+            if isinstance(node.func, ast.Name) and name in self.funcs and name not in PAGES:
+                return self.inline(self.funcs[name], node, env)
             if isinstance(node.func, ast.Attribute) and node.func.attr == 'join' \
                     and isinstance(node.func.value, ast.Constant) and len(node.args) == 1:
                 return self.join(node.func.value.value, node.args[0], env)
@@ -405,6 +446,9 @@ class PageEval:
         return []
 
 
+# functions of results.py with a meaning of their own for the page model (never inlined)
+NOT_HELPERS = ('html_escape', 'hbytes', 'human_methods_', 'handlers_view', 'not_modified', '__fill_default_shandlers')
+
 PAGES = ['internal_server_error', 'bad_request', 'unauthorized', 'forbidden', 'not_found',
          'method_not_allowed', 'not_implemented', 'directory_index', 'debug_info']
 
@@ -415,7 +459,7 @@ def extract(tree):
     funcs = {n.name: n for n in tree.body if isinstance(n, ast.FunctionDef)}
     for name in PAGES:
         fn = funcs[name]
-        ev = PageEval()
+        ev = PageEval({k: v for k, v in funcs.items() if k not in NOT_HELPERS})
         env = Env()
         for a in fn.args.args:
             env.cls[a.arg] = 'trusted' if a.arg in ('req', 'app', 'code') else 'tainted'
